@@ -90,7 +90,8 @@ def classify(b, vr):
                 if o.get('tags') and (tags is None or (s.get('label') or '').startswith('failed')):
                     tags = o['tags']
         if tags is None:
-            tags = list(fn['props']) if fn else []
+            # no clause named by the diagnostic (e.g. a resource error on the whole body): every property the function carries
+            tags = sorted(set(fn['props']) | set(fn.get('clause_tags') or [])) if fn else []
         rec['tags'] = tags
         rec['clause'] = clause
         # the source location a reader should look at
